@@ -18,7 +18,7 @@ def relevant(prop, failure, unit_props):
     function's (else the unit's) property list names the properties the function serves. A failing obligation is reported for the
     union: a change that breaks a contracted function is a violation of every property that function is evidence for (a tag that is
     too narrow must not hide it - found with seed C13-2)."""
-    tags = set(hqv.tags_of(failure.get("clause") or "") or []) | set(hqv.tags_of(failure.get("failed_requires") or "") or [])
+    tags = set(hqv.tags_of(failure.get("clause") or "") or []) | set(hqv.tags_of(failure.get("failed_requires") or "") or []) | set(failure.get("clause_tags") or [])
     fn_props = set((failure.get("fn_info") or {}).get("props") or unit_props)
     return prop in (tags | fn_props)
 
@@ -309,7 +309,7 @@ def main(argv):
         for ap_ in R.applied:
             applied_rules[ap_["rule"]] = applied_rules.get(ap_["rule"], 0) + 1
         # functions of this unit that serve this property
-        my_fns = [n for n, info in R.fn_info.items() if prop in (info.get("props") or unit_props)]
+        my_fns = [n for n, info in R.fn_info.items() if prop in (info.get("props") or unit_props) or prop in getattr(R, "fn_tags", {}).get(n, [])]
         missing = [f for f in base["functions"] if f not in R.fn_info]
         if missing:
             undecided.append(f"{u}: LOST-ANCHOR functions missing from extraction: {missing}")
